@@ -30,6 +30,7 @@ type Node struct {
 
 // Doc is an immutable document.
 type Doc struct {
+	NoNS  bool // navigated through PlainNav (no NamespaceURL method)
 	Idx   int
 	Root  *Node
 	Nodes []*Node // by ID
@@ -37,7 +38,7 @@ type Doc struct {
 
 // Build turns a replay-file document into a Doc.
 func Build(idx int, spec scn.DocSpec) *Doc {
-	d := &Doc{Idx: idx}
+	d := &Doc{Idx: idx, NoNS: spec.NoNS}
 	d.Root = &Node{Kind: xpath.RootNode}
 	d.add(d.Root)
 	var build func(parent *Node, specs []*scn.NodeSpec)
@@ -257,4 +258,44 @@ func (n *Nav) MoveTo(o xpath.NodeNavigator) bool {
 	}
 	n.cur, n.attr = on.cur, on.attr
 	return true
+}
+
+// IDer is what the harness needs from whatever navigator the engine hands back.
+type IDer interface{ ID() int }
+
+// PlainNav is a second navigator implementation over the same documents: it
+// behaves exactly like Nav but does NOT implement NamespaceURL() - like a
+// navigator of another library used with the same compiled expressions. A
+// document marked NoNS is only ever navigated through PlainNav.
+type PlainNav struct{ n *Nav }
+
+func (p *PlainNav) ID() int                   { return p.n.ID() }
+func (p *PlainNav) NodeType() xpath.NodeType  { return p.n.NodeType() }
+func (p *PlainNav) LocalName() string         { return p.n.LocalName() }
+func (p *PlainNav) Prefix() string            { return p.n.Prefix() }
+func (p *PlainNav) Value() string             { return p.n.Value() }
+func (p *PlainNav) MoveToRoot()               { p.n.MoveToRoot() }
+func (p *PlainNav) MoveToParent() bool        { return p.n.MoveToParent() }
+func (p *PlainNav) MoveToNextAttribute() bool { return p.n.MoveToNextAttribute() }
+func (p *PlainNav) MoveToChild() bool         { return p.n.MoveToChild() }
+func (p *PlainNav) MoveToFirst() bool         { return p.n.MoveToFirst() }
+func (p *PlainNav) MoveToNext() bool          { return p.n.MoveToNext() }
+func (p *PlainNav) MoveToPrevious() bool      { return p.n.MoveToPrevious() }
+func (p *PlainNav) Copy() xpath.NodeNavigator { return &PlainNav{n: p.n.Copy().(*Nav)} }
+func (p *PlainNav) MoveTo(o xpath.NodeNavigator) bool {
+	op, ok := o.(*PlainNav)
+	if !ok {
+		p.n.fire(MMoveTo)
+		return false
+	}
+	return p.n.MoveTo(op.n)
+}
+
+// NavFor returns the navigator type the document is navigated with.
+func NavFor(d *Doc, id int, owner int32) xpath.NodeNavigator {
+	n := NewNav(d, id, owner)
+	if d.NoNS {
+		return &PlainNav{n: n}
+	}
+	return n
 }
